@@ -1165,23 +1165,9 @@ func runOpenFilesBounded(c *Ctx) {
 			return true
 		})
 	}
-	InspectNoLits(fin.Body, func(m ast.Node) bool {
-		if ss, ok := m.(*ast.SendStmt); ok && !ack.Valid() {
-			mentionsDone := false
-			ast.Inspect(ss.Value, func(x ast.Node) bool {
-				if kv, ok := x.(*ast.KeyValueExpr); ok {
-					if k, ok := kv.Key.(*ast.Ident); ok && k.Name == "done" {
-						mentionsDone = true
-					}
-				}
-				return true
-			})
-			if mentionsDone {
-				ack = fcfg.Find(ss.Pos())
-			}
-		}
-		return true
-	})
+	if qn := ackQueueNode(p, fin, "done"); qn != nil {
+		ack = fcfg.Find(qn.Pos())
+	}
 	if !dec.Valid() || !ack.Valid() {
 		c.Unknown("open-files/closed-before-ack", fin.Pos(), "cannot find the decrement of the open-file counter / the queueing of FileDone in finalizeFile")
 		return
